@@ -175,8 +175,12 @@ pub fn parse_duration(input: &str) -> IResult<&str, Duration> {
     let duration = match unit {
         "ms" | "milliseconds" | "millisecond" => Duration::from_millis(value),
         "sec" | "second" | "seconds" => Duration::from_secs(value),
-        "min" | "minute" | "minutes" => Duration::from_secs(value * 60),
-        "hour" | "hours" => Duration::from_secs(value * 3600),
+        "min" | "minute" | "minutes" => Duration::from_secs(value.checked_mul(60).ok_or_else(|| {
+            nom::Err::Error(nom::error::Error::new(input, nom::error::ErrorKind::TooLarge))
+        })?),
+        "hour" | "hours" => Duration::from_secs(value.checked_mul(3600).ok_or_else(|| {
+            nom::Err::Error(nom::error::Error::new(input, nom::error::ErrorKind::TooLarge))
+        })?),
         _ => {
             return Err(nom::Err::Error(nom::error::Error::new(
                 input,
